@@ -1,6 +1,7 @@
 CONSTANTS
   Keys = {"a", "b"}
   Clients = {"c1", "c2"}
+  Vals = {1, 2}
   MaxVer = 40
   MaxBatch = 2
   MaxMsg = 1
